@@ -488,4 +488,4 @@ M("c07-rollback-keeps-constraint", "C07", "cola/libcola/colafd.cpp",
 M("c07-positions-not-restored", "C07", "cola/libcola/colafd.cpp",
   "                    for (unsigned int i = 0; i < priorPos.size(); ++i)\n                    {\n                        vs[dim][i]->finalPosition = priorPos[i];",
   "                    for (unsigned int i = 1; i < priorPos.size(); ++i)\n                    {\n                        vs[dim][i]->finalPosition = priorPos[i];",
-  expect="silent")
+  mention=["MAKEFEASIBLE-PROTOCOL", "rollback"])
